@@ -407,6 +407,26 @@ func runCheckOpts(opts *CheckOpts) int {
 		contractSrc = append(contractSrc, k+":"+v)
 	}
 	sort.Strings(contractSrc)
+	// thorough tier: the must-fail / must-pass corpus of the property is part of the check.
+	// A pass then also means: every recorded property-breaking change (deliberate mutants,
+	// re-introduced defects, changes seeded by independent agents) is still reported, and
+	// every recorded harmless refactor still verifies - the contracts have not gone vacuous.
+	var corpus map[string]interface{}
+	if thorough && only == "" && !opts.NoEvidence && opts.Overlay == nil && violations == 0 && faults == 0 && len(engineErrs) == 0 {
+		n, bad, lines := runSelfCases(id, false, 3)
+		var badLines []string
+		for _, l := range lines {
+			if !strings.HasPrefix(l, "selftest ok") {
+				badLines = append(badLines, l)
+				fmt.Fprintf(out, "ENGINE-FAULT property=%s corpus case misbehaves: %s\n", id, l)
+			}
+		}
+		corpus = map[string]interface{}{"cases": n, "as_expected": n - bad, "misbehaving": badLines}
+		fmt.Fprintf(out, "corpus property=%s cases=%d as_expected=%d\n", id, n, n-bad)
+		if bad > 0 {
+			faults++
+		}
+	}
 	ev := map[string]interface{}{
 		"property_id": id,
 		"tier":        tier,
@@ -436,6 +456,9 @@ func runCheckOpts(opts *CheckOpts) int {
 		"assumptions": assumpList,
 		"wall_s":      round3(time.Since(start).Seconds()),
 		"violations":  violations,
+	}
+	if corpus != nil {
+		ev["coverage"].(map[string]interface{})["mutation_corpus"] = corpus
 	}
 	os.MkdirAll(filepath.Join(verifDir(), "evidence"), 0o755)
 	data, _ := json.MarshalIndent(ev, "", " ")
